@@ -102,7 +102,7 @@ def run(ctx):
             cfg = P.random_cfg(rng, max_models=2, max_steps=3, kinds=("set", "add"), p_img=1.0, prior_p=0.0)
             cfg["pipe"][1].insert(0, {"name": "ph", "enabled": True, "args": "a", "kind": "set", "b": "photon", "base": 5, "mask": -1})
             cfg["pipe"][6].append({"name": "sg", "enabled": True, "args": "a", "kind": "set", "b": "signal", "base": 9, "mask": -1})
-            jobs.append({"mode": mode, "cfg": cfg, "save": SAVES[k % 6], "repeat": 2})
+            jobs.append({"mode": mode, "cfg": cfg, "save": SAVES[k % 6], "repeat": 2 + (k % 2), "reuse": k % 2 == 0})
         else:
             np_ = rng.randint(1, 2)
             params = [{"vals": rng.sample([1, 2, 3], rng.randint(2, 3)), "enabled": True,
